@@ -4,6 +4,9 @@
 (*   restart      up held listening announce probed answers ok error                    *)
 (*   shutdown             listening          probed answers ok error                    *)
 (*   run                  listening announce probed answers ok error                    *)
+(*   stop_responder       listening          probed answers ok error   tear-down steps  *)
+(*   close_iface   i      listening          probed answers ok error   of the restart / *)
+(*                                                     shutdown event that follows them *)
 (* held = the new responder thread was stopped before its first statement (or inside    *)
 (* its first sendto) and waits for "run"; probed = no thread was pending after the      *)
 (* operation, so a broadcast request was sent and answers holds the replies;            *)
@@ -24,26 +27,29 @@ Pairs(s) == {<<s[k][1], s[k][2]>> : k \in 1 .. Len(s)}
 (* judged on the state AFTER the operation *)
 Clauses(e, c, u, ph, g, cr) ==
    << <<e.ev \o ".no_error", e.error = "">>,
-      <<e.ev \o ".listening", ToSet(e.listening) = (IF ph = "up" THEN Tcp(c) \cap u ELSE {})>>,
+      <<e.ev \o ".listening", ToSet(e.listening) = (IF ph \in {"up", "closing"} THEN Tcp(c) \cap u ELSE {})>>,
       <<e.ev \o ".messages_wellformed", e.ok>>,
       <<e.ev \o ".probed_when_quiet", e.probed = (cr = {})>>,
       <<e.ev \o ".answers_current_identity", \A p \in Pairs(e.answers) : p[1] = g>>,
       <<e.ev \o ".answers_port_listened", \A p \in Pairs(e.answers) : p[2] \in ToSet(e.listening)>>,
       <<e.ev \o ".one_answer_per_port", Len(e.answers) = Cardinality(Pairs(e.answers))>>,
-      <<e.ev \o ".answers", e.probed => Pairs(e.answers) = Demanded(c, u, ph, g)>>,
-      <<e.ev \o ".announce", e.ev = "shutdown" \/
+      <<e.ev \o ".answers", e.probed => IF ph = "closing" THEN Pairs(e.answers) \subseteq Demanded(c, u, ph, g)
+                                                    ELSE Pairs(e.answers) = Demanded(c, u, ph, g)>>,
+      <<e.ev \o ".announce", e.ev \in {"shutdown", "stop_responder", "close_iface"} \/
             (Pairs(e.announce) \subseteq Demanded(c, u, ph, g) /\ Len(e.announce) = Cardinality(Pairs(e.announce)))>> >>
 FirstFalse(cl) == LET bad == {j \in 1 .. Len(cl) : ~ cl[j][2]}
                   IN IF bad = {} THEN "" ELSE cl[Min(bad)][1]
 
 TInit == /\ t \in 1 .. NT /\ l = 1
          /\ cfg = Traces[t][1].cfg /\ up = {} /\ ever = {} /\ phase = "down" /\ gen = 0 /\ live = {}
-         /\ created = {} /\ closed = {}
+         /\ created = {} /\ closed = {} /\ rstopped = FALSE
          /\ given = <<>> /\ last = [kind |-> "none"]
 TStep == /\ l <= Len(Traces[t])
          /\ l' = l + 1 /\ t' = t
          /\ \/ Ev.ev = "boot" /\ phase = "down" /\ Come("boot", ToSet(Ev.up), Ev.held)
-            \/ Ev.ev = "restart" /\ phase = "up" /\ Come("restart", ToSet(Ev.up), Ev.held)
+            \/ Ev.ev = "stop_responder" /\ StopResponder
+            \/ Ev.ev = "close_iface" /\ CloseInterface(Ev.i)
+            \/ Ev.ev = "restart" /\ TornDown /\ Come("restart", ToSet(Ev.up), Ev.held)
             \/ Ev.ev = "shutdown" /\ Shutdown
             \/ Ev.ev = "run" /\ RunAll
          /\ FirstFalse(Clauses(Ev, cfg, up', phase', gen', created')) = ""
@@ -56,11 +62,13 @@ StateAt(i, k) ==      \* <<phase, gen, up, created>> after event k
    IF k = 0 THEN <<"down", 0, {}, {}>>
    ELSE LET s == StateAt(i, k - 1)
             e == Traces[i][k]
-        IN IF e.ev \in {"boot", "restart"}
-           THEN (IF ToSet(e.up) = {} THEN <<"stopped", s[2], {}, s[4]>>
-                 ELSE <<"up", s[2] + 1, ToSet(e.up), IF e.held THEN s[4] \cup {s[2] + 1} ELSE s[4]>>)
-           ELSE IF e.ev = "run" THEN <<s[1], s[2], s[3], {}>>
-           ELSE <<"stopped", s[2], {}, s[4]>>
+        IN CASE e.ev \in {"boot", "restart"} ->
+                  (IF ToSet(e.up) = {} THEN <<"stopped", s[2], {}, s[4]>>
+                   ELSE <<"up", s[2] + 1, ToSet(e.up), IF e.held THEN s[4] \cup {s[2] + 1} ELSE s[4]>>)
+             [] e.ev = "run" -> <<s[1], s[2], s[3], {}>>
+             [] e.ev = "stop_responder" -> <<"closing", s[2], s[3], s[4]>>
+             [] e.ev = "close_iface" -> <<"closing", s[2], s[3] \ {e.i}, s[4]>>
+             [] OTHER -> <<"stopped", s[2], {}, s[4]>>
 Why(i, k) == LET s == StateAt(i, k)
                  w == FirstFalse(Clauses(Traces[i][k], Traces[i][1].cfg, s[3], s[1], s[2], s[4]))
              IN IF w = "" THEN "operation not enabled in DiscoveryServer" ELSE w
